@@ -13,7 +13,8 @@ VH = {
                 rule="cases = exhaustive blocks (all 1927 monomials of length <= 4 over M = 1,2,3 modes; all ordered monomial pairs of total length <= 4 (quick) / <= 6 (thorough) with product, "
                      "commutator, anticommutator and commutes(); all triples of length-<=2 monomials over M <= 2 (quick) / <= 3 (thorough) for associativity; all (i,j) < M <= 6 for the CAR; all ordered pairs of the 154 (M=2) / 310 (M=3, thorough) operators {b, p+q, p*q, p-q : b,p,q in 1,c_i,c+_i,n_i} for commutes()) "
                      "+ generated N/Sz shortcut cases + generated equality-pair cases + random polynomials (M <= 6 quick / 8 thorough, 1-6 monomials of length 0-8, well separated coefficients, "
-                     "complex ones in the complex build) x {real,complex build}; every library operator is observed through actRight/getMatrixElement on all Fock states and through its stored "
+                     "complex ones in the complex build) + wide-ket cases (Fock states of 24..200 modes, random 1-3-term polynomials of length <= 4 with indices biased to the 32/64-bit word boundaries, action "
+                     "compared with a bit-wise Jordan-Wigner reference through actRight, getMatrixElement and the static actRight(monomial, ket)) x {real,complex build}; every library operator is observed through actRight/getMatrixElement on all Fock states and through its stored "
                      "monomials; oracle = dense Jordan-Wigner matrix algebra, tolerance 1e-12 x sum|coefficients|; non-trivial = part of an exhaustive enumeration or >= 1 library "
                      "product/commutator with both operands having >= 2 stored monomials; distinct = enumeration block / hash of the generated polynomials"),
     "C15": dict(drivers=[dict(driver="vertex", flavours=P2, timeout=60)],
@@ -125,7 +126,7 @@ INFO = {
                 level_note="Red-zone tools miss non-adjacent and intra-object overflows; only reached code is observed; leaks are not part of the property and are not counted; MSan is not used.",
                 design_ref="DESIGN.md section 3, C17"),
     "C05": dict(technique="runtime differential monitor: Pomerol::Operator algebra, operator==, commutes, N/Sz shortcuts vs dense Jordan-Wigner matrix algebra; exhaustive for small (modes, length), random beyond",
-                level_text="Every product, sum, difference, scalar multiple, commutator and anticommutator formed by the real library is compared as a matrix (through actRight/getMatrixElement on all Fock states and through the stored normal-ordered monomials) with the same expression of independent Jordan-Wigner matrices: exhaustively for all monomials of length <= 4 over <= 3 modes, all ordered pairs up to total length 4 (quick) / 6 (thorough), all triples of length-<=2 monomials, all CAR pairs for M <= 6, and on random polynomials up to 6 (8) modes and length 8; operator== and commutes() are compared with matrix equality on constructed pair classes; held on what was run, not a proof.",
+                level_text="Every product, sum, difference, scalar multiple, commutator and anticommutator formed by the real library is compared as a matrix (through actRight/getMatrixElement on all Fock states and through the stored normal-ordered monomials) with the same expression of independent Jordan-Wigner matrices: exhaustively for all monomials of length <= 4 over <= 3 modes, all ordered pairs up to total length 4 (quick) / 6 (thorough), all triples of length-<=2 monomials, all CAR pairs for M <= 6, and on random polynomials up to 6 (8) modes and length 8; on Fock states of 24..200 modes the action of random polynomials is compared with a bit-wise reference; operator== and commutes() are compared with matrix equality on constructed pair classes; held on what was run, not a proof.",
                 level_note="Trusts Eigen's dense products and the harness's 50-line Jordan-Wigner construction (self-checked); coefficients are drawn from a well separated set so the library's 100*eps erase window is never straddled.",
                 design_ref="DESIGN.md section 3, C05"),
     "C15": dict(technique="runtime monitor: (a) exhaustive observation of MatsubaraContainer4 through an injective call-counting source (hit/miss observed, window derived from fill's own requests and compared with the documented window); (b) Vertex4 storage vs direct value bit-for-bit and direct value vs documented chi - chi0 on generated models",
